@@ -190,11 +190,11 @@ func (x *FnExec) havocAll(st *State) {
 	}
 	n := x.rootState()
 	x.addFact(x.intLe(st.alloc, n.alloc))
-	cells := map[*ssa.Alloc]Value{}
+	cells := map[ssa.Value]Value{}
 	// local cells are not reachable by callees: keep them
 	var collect func(s *State)
 	seen := map[*State]bool{}
-	var allocs []*ssa.Alloc
+	var allocs []ssa.Value
 	collect = func(s *State) {
 		if s == nil || seen[s] {
 			return
@@ -255,7 +255,7 @@ func (x *FnExec) inlineCall(fr *Frame, fn *ssa.Function, c *Contract, args []Val
 	}
 	// splice resulting state back into st
 	st.heap = map[string]*Term{}
-	st.cells = map[*ssa.Alloc]Value{}
+	st.cells = map[ssa.Value]Value{}
 	st.base = rst
 	st.parents = nil
 	st.alloc = rst.alloc
@@ -309,7 +309,7 @@ func (x *FnExec) contractCall(c *Contract, sig *types.Signature, key string, arg
 	// freeze pre-state: `pre` shares st's history; subsequent writes go to st only.
 	frozen := &State{x: x, heap: st.heap, cells: st.cells, alloc: st.alloc, base: st.base, parents: st.parents, epoch: st.epoch}
 	st.heap = map[string]*Term{}
-	st.cells = map[*ssa.Alloc]Value{}
+	st.cells = map[ssa.Value]Value{}
 	st.base = frozen
 	st.parents = nil
 	// results (created first: modifies clauses may mention them)
@@ -420,6 +420,20 @@ func (x *FnExec) havocLoc(ev *SpecEnv, e SExpr, pre, st *State) {
 			x.storeTyped(st, loc, prefix, t, nv)
 			return
 		}
+		if id, ok := m.Fun.(*SIdent); ok && id.Name == "alloftype" {
+			// alloftype(T): any field of any object of struct type T
+			t := ev.lookupType(showSpec(m.Args[0]))
+			if t == nil {
+				unsupp("alloftype: unknown type %s", showSpec(m.Args[0]))
+			}
+			var ls []leaf
+			x.leaves(t, "", &ls)
+			for _, l := range ls {
+				key := "obj:" + typeKey(t) + l.path
+				st.setHeap(key, tc.Fresh("modall|"+key, SArr(x.refSort(), l.sort)))
+			}
+			return
+		}
 		if id, ok := m.Fun.(*SIdent); ok && id.Name == "ghost" && len(m.Args) == 2 {
 			if w, ok := m.Args[1].(*SIdent); ok && w.Name == "_" {
 				gp := ev.ghostPlaceRef(m, x.refConst(0))
@@ -433,10 +447,7 @@ func (x *FnExec) havocLoc(ev *SpecEnv, e SExpr, pre, st *State) {
 		if loc == nil {
 			unsupp("modifies %s: not a location", showSpec(e))
 		}
-		prefix, t, _ := x.placeKey(loc)
-		nv := x.freshVal("mod."+sanitize(showSpec(e)), t)
-		x.inputFacts(st, nv, t)
-		x.storeTyped(st, loc, prefix, t, nv)
+		x.havocPlace(loc, st, showSpec(e))
 	default:
 		loc := ev.evalPlace(e)
 		if loc == nil {
@@ -445,14 +456,42 @@ func (x *FnExec) havocLoc(ev *SpecEnv, e SExpr, pre, st *State) {
 		if loc.kind == pkLocal {
 			unsupp("modifies of local")
 		}
-		prefix, t, _ := x.placeKey(loc)
 		if loc.aidx != nil {
 			unsupp("modifies of array element inside aggregate")
 		}
-		nv := x.freshVal("mod."+sanitize(showSpec(e)), t)
-		x.inputFacts(st, nv, t)
-		x.storeTyped(st, loc, prefix, t, nv)
+		x.havocPlace(loc, st, showSpec(e))
 	}
+}
+
+// havocPlace havocs a location; for a map-typed location also the contents of the map it refers to.
+func (x *FnExec) havocPlace(loc *Place, st *State, what string) {
+	tc := x.tc
+	prefix, t, _ := x.placeKey(loc)
+	if mt, ok := t.Underlying().(*types.Map); ok {
+		m := x.load(st, loc).(*Term)
+		dom, val, card, ks, vs := x.mapHeaps(st, mt)
+		rs := x.refSort()
+		dh := st.getHeap(dom, SArr(rs, SArr(ks, SBool)))
+		st.setHeap(dom, tc.Store(dh, m, tc.Fresh("mod.mapdom", SArr(ks, SBool))))
+		ch := st.getHeap(card, SArr(rs, rs))
+		nc := tc.Fresh("mod.mapcard", rs)
+		x.addFact(x.intLe(x.refConst(0), nc))
+		st.setHeap(card, tc.Store(ch, m, nc))
+		if vs != "" {
+			h := st.getHeap(val, SArr(rs, SArr(ks, vs)))
+			st.setHeap(val, tc.Store(h, m, tc.Fresh("mod.mapval", SArr(ks, vs))))
+		} else {
+			var ls []leaf
+			x.leaves(mt.Elem(), "", &ls)
+			for _, l := range ls {
+				h := st.getHeap(val+l.path, SArr(rs, SArr(ks, l.sort)))
+				st.setHeap(val+l.path, tc.Store(h, m, tc.Fresh("mod.mapval", SArr(ks, l.sort))))
+			}
+		}
+	}
+	nv := x.freshVal("mod."+sanitize(what), t)
+	x.inputFacts(st, nv, t)
+	x.storeTyped(st, loc, prefix, t, nv)
 }
 
 // ---------- builtins ----------
